@@ -111,7 +111,12 @@ def func_info(func):
         obj = mod
         try:
             for p in qn.split('.')[:-1]:
-                obj = getattr(obj, p)
+                if hasattr(obj, p):
+                    obj = getattr(obj, p)
+                elif inspect.isclass(obj) and p.startswith('__'):
+                    obj = getattr(obj, '_' + obj.__name__.lstrip('_') + p)     # private nested class
+                else:
+                    raise AttributeError(p)
             if inspect.isclass(obj):
                 defcls = obj
         except AttributeError:
